@@ -555,3 +555,9 @@ package scan
 //@ func (*portError).GetPort
 //@   props C13 C01
 //@   ensures ret0 == 0 && isptr(ret1, portError) && asptr(ret1, portError) == err
+
+// option constructors: each returns its own option closure over exactly its argument (verified here, inlined at call sites)
+//@ func WithScanWorkerCount
+//@   inline
+//@   props C08 C01 C02 C09 C10 C13 C15
+//@   ensures closureof(ret, "WithScanWorkerCount$1") && capt(ret, "workerCount") == workerCount
